@@ -166,6 +166,46 @@ def case_mixed(kind, fam, n, disconnect=None):
 
 
 # ------------------------------------------------------------------------------------------ Form expression API
+def case_rectangular(fam, rep):
+    """Test and trial functions from different containers (third audit / round 10: every form had `v is u`): one test field with a trial
+    field of its own region, then with a same-layout trial field on the *disconnected* mesh (same points per cell and dimension, other
+    connectivity), then with the first again - the assembled columns are the trial field's unknowns in each case. The hook compares every
+    assembled matrix with the loops."""
+    def fn(run):
+        import felupe as fem
+        rng = rng_for(run.seed, "C02", "rectangular", fam, rep)
+        MA.attach_hook(run)
+        try:
+            mesh, _ = gen.build_mesh(fam, "distorted", rng)
+            d = mesh.dim
+            reg = gen.make_region(fam, mesh)
+            regd = gen.make_region(fam, mesh.disconnect())
+            v = fem.FieldContainer([fem.Field(reg, dim=d)])
+            u1 = fem.FieldContainer([fem.Field(reg, dim=d)])
+            u2 = fem.FieldContainer([fem.Field(regd, dim=d)])
+            us = fem.FieldContainer([fem.Field(regd, dim=1)])
+            nq, nc = reg.quadrature.npoints, mesh.ncells
+            C4 = rng.standard_normal((d, d, d, d, nq, nc))
+            Cv = rng.standard_normal((d, d, d, nq, nc))
+            shapes = set()
+            for parallel in (False, True):
+                for trial, name in ((u1, "own-region"), (u2, "disconnected"), (u1, "own-region-again"), (u2, "disconnected-again")):
+                    K = fem.IntegralForm([C4], v=v, dV=reg.dV, u=trial, grad_v=[True], grad_u=[True]).assemble(parallel=parallel)
+                    shapes.add(K.shape)
+                    run.units["rectangular:" + name.replace("-again", "")] += 1
+                # a scalar value-type trial field on the disconnected mesh (a pressure-like dual) against the gradient-type test field
+                fem.IntegralForm([Cv[0]], v=v, dV=reg.dV, u=us, grad_v=[True], grad_u=[False]).assemble(parallel=parallel)
+                run.units["rectangular:scalar-trial"] += 1
+            want = {(mesh.npoints * d, mesh.npoints * d), (mesh.npoints * d, regd.mesh.npoints * d)}
+            if shapes == want:
+                run.ok("integralform.assemble", unit="rectangular:shape", config=(fam, "rectangular"))
+            else:
+                run.fail("integralform.assemble", "form=rectangular clause=shape", "rows / columns of a form with distinct test and trial fields are not (unknowns of v, unknowns of u): %s" % sorted(shapes))
+        finally:
+            attach.detach_all()
+    return fn
+
+
 def case_form(rep):
     def fn(run):
         import felupe as fem
@@ -337,13 +377,16 @@ def cases(tier, seed):
             kind2 = kind
         out.append(("mixed:%s:%s:%d" % (kind2, fam, n), case_mixed(kind2, fam, n)))
     out.append(("mixed:planestrain:quad8:2:disconnected", case_mixed("planestrain", "quad8", 2, disconnect=True)))
+    for fam in ("quad", "hexahedron", "triangle"):
+        for rep in range(1 if tier == "quick" else 3):
+            out.append(("rectangular:%s:%d" % (fam, rep), case_rectangular(fam, rep)))
     for rep in range(4 if tier == "quick" else 16):
         out.append(("form:%d" % rep, case_form(rep)))
     return out
 
 
 SPEC = {
-    "required_units": ["kind:cartesian", "kind:scalar", "kind:planestrain", "kind:axisymmetric", "kind:cartesian uniform",
+    "required_units": ["rectangular:own-region", "rectangular:disconnected", "rectangular:scalar-trial", "rectangular:shape", "kind:cartesian", "kind:scalar", "kind:planestrain", "kind:axisymmetric", "kind:cartesian uniform",
                        "kind:planestrain uniform", "mixed:cartesian:n=3", "mixed:cartesian:n=2", "mixed:planestrain:n=3",
                        "mixed:planestrain:n=2", "mixed:axisymmetric:n=3", "mixed:axisymmetric:n=2", "assemble(values=integrate())", "block-mode=1", "block-mode=2", "block-mode=3", "none-block", "parallel-einsum", "dual-points-per-cell=1",
                        "dual-points-per-cell=4", "dual-points-per-cell=3", "distinct-thread-completion-orders>=2",
